@@ -891,8 +891,10 @@ Proof.
   pose proof (unlock_cs_inv c s g s1 HI Hu) as HI1.
   pose proof (unlock_cs_ops c s g s1 Hu) as Ho.
   destruct rest as [|g' rest'].
-  - destruct af as [o1|sh k lim]; inv H.
-    + apply (pc_change_inv s1 a (PDrops [g] (ADone o)) None); auto; try congruence; solve_pc.
+  - destruct af as [| | |sh k lim]; inv H.
+    + apply (pc_change_inv s1 a (PDrops [g] ADoneUnit) None); auto; try congruence; solve_pc.
+    + apply (pc_change_inv s1 a (PDrops [g] ADoneErr) None); auto; try congruence; solve_pc.
+    + apply (pc_change_inv s1 a (PDrops [g] ADonePanicked) None); auto; try congruence; solve_pc.
     + apply (pc_change_inv s1 a (PDrops [g] (AReenter sh k lim)) (Some (PEnter sh k (Some lim)))); auto; try congruence; solve_pc.
   - inv H. apply (pc_change_inv (begin_unlock c s1 g') a (PDrops (g :: g' :: rest') af) (Some (PDrops (g' :: rest') af))).
     + apply begin_unlock_inv; auto.
